@@ -149,7 +149,9 @@ def resend_progress(ctx, rep, ver, mod, pmod):
     B = c("MAX_PAYLOAD")
     hv = c("CHUNK_HEADER_SIZE_VITAL")
     budget_ok = amax is not None and amax + hv <= B
-    disj = _can_fit_defs_ok(b, ir, mod) and _has_empty_disjunct(b, ir)
+    from .C04 import resend_admission, _sent_field
+    _adm, _defs_ok, _has_empty = resend_admission(b, ir, mod, _sent_field(prog, mod))
+    disj = _defs_ok and _has_empty
     fb = prog.one(mod + "::OnlineState::flush")
     fir = IR(fb)
     clears = [show(fir.term_operand(bi, t["args"][0])) for bi, t in fb.calls() if (t.get("callee") or "").endswith("PacketContents::clear")]
@@ -287,6 +289,37 @@ def timers(prog, rep, ver, mod):
     ok = bool(sinks) and bool(sets) and _must_pass(ta, sets, sinks)
     rep.ob(rule, "%s | tick_action re-arms before every send" % ver, ok,
            "every path to a control send / flush in tick_action passes send.set (%d sets, %d sends)" % (len(sets), len(sinks)), ta.loc())
+    # (c') has_triggered_edge *consumes* the send timer (it disarms it when it fires).  In tick() every path from such a call to
+    # a return must either take the `not fired` edge of the test on its result or reach tick_action (which re-arms): a consumed
+    # timer whose action is skipped (e.g. because a resend took precedence) is never armed again -- no keep-alives, no resends.
+    tk = prog.one(mod + "::Connection::tick")
+    kir = IR(tk)
+    edge_calls = [(bi, t) for bi, t in tk.calls() if "has_triggered_edge" in (t.get("callee") or t.get("nf") or "")]
+    acts = frozenset(bi for bi, t in tk.calls() if (t.get("callee") or "").endswith("::tick_action"))
+    rep.floor(rule, len(edge_calls), 1, "%s: calls of has_triggered_edge in Connection::tick" % ver)
+    for n_, (cbi, ct) in enumerate(edge_calls):
+        dl = ct["dest"]["l"] if ct.get("dest") else None
+        notfired = set()
+        for bi in sorted(tk.live):
+            t = tk.blocks[bi]["term"]
+            if t["k"] != "switch":
+                continue
+            o = t["o"].get("mv") or t["o"].get("cp")
+            e, neg = strip_not(kir.term_operand(bi, t["o"]))
+            direct = o is not None and o.get("l") == dl and not o.get("pr")
+            viaexpr = e[0] == "call" and "has_triggered_edge" in e[1]
+            if direct or viaexpr:
+                fe = bool_edge(tk, bi, neg)         # edge on which the (possibly negated) operand is false = not fired
+                if fe is not None:
+                    notfired.add((bi, fe))
+        ok = bool(notfired) and bool(acts)
+        if ok:
+            reach = tk.reachable_from(ct.get("t"), removed_edges=frozenset(notfired), removed_blocks=acts)
+            ok = not any(r_ in reach for r_ in tk.return_blocks())
+        rep.ob(rule, "%s | a consumed send timer is followed by tick_action | %d" % (ver, n_), ok,
+               "every path from has_triggered_edge() == true to the end of tick() passes tick_action" if ok else
+               "tick() can return after has_triggered_edge() consumed the send timer without calling tick_action: the timer is never re-armed",
+               tk.loc(ct.get("ln")))
     # every state with an action: the arms of the match -- count them against the needs_tick inactive set
     nt = prog.one(mod + "::Connection::needs_tick")
     nir = IR(nt)
